@@ -130,6 +130,23 @@ def build() -> Check:
                 kinds.add(kind_of(t.value))
         ck.ob("R2.decode-rebuilds-the-encoded-type", fn_construct(tc.methods["decode"]), kinds == {name},
               f"a {name} value is tagged {tg.name}; decoding that tag yields {sorted(kinds)}", cell=name)
+    # nested envelopes are decoded element by element
+    env = DictVal({"t": Const("s"), "v": Sym("w0", TypeRef(prim="str"))})
+    for name, tagname, wv in (("list", "LIST", SeqVal("list", [env])), ("tuple", "TUPLE", SeqVal("list", [env])), ("dict", "DICT", DictVal({"k": env}))):
+        tg = EnumVal(tag_cls.fq, tagname, tag_cls.enum_members[tagname])
+        trs = pm.run_function(tc.methods["decode"], codec, lambda it, s, tg=tg, wv=wv: {"tag": tg, "value": wv}, cell=("decode-nested", name))
+        bad = []
+        for t in trs:
+            if t.outcome != "return":
+                continue
+            v = t.value
+            elems = v.items if isinstance(v, SeqVal) else list(v.items.values()) if isinstance(v, DictVal) else None
+            if not elems or any(kind_of(e) != "str" for e in elems):
+                bad.append(f"elements of a decoded {name} are {[kind_of(e) for e in elems] if elems else v.key()[:40]} (expected the decoded str)")
+            if isinstance(v, DictVal) and list(v.items) != ["k"]:
+                bad.append(f"keys of a decoded dict are {list(v.items)}")
+        ck.ob("R4.elements-individually-unwrapped", "serdes.py:ContainerCodec.decode", not bad and trs, bad[0] if bad else "", cell=name)
+
     # unknown tags are rejected everywhere (no pass-through)
     for cname, c in sd.classes.items():
         dec = c.methods.get("decode")
@@ -220,6 +237,33 @@ def build() -> Check:
     d = DictVal({"s": Sym("e", TypeRef(prim="str"))})
     trs = pm.run_function(tc.methods["encode"], codec, lambda it, s, d=d: {"obj": d}, cell=("encode-dict-key", "str"))
     ck.ob("R6.string-keys-accepted", fn_construct(cc.methods["encode"]), bool(trs) and all(t.outcome == "return" for t in trs), "a string-keyed dict is rejected")
+
+    # R8 the codec path is a function of (type, value): no equality-keyed memoisation ------------------------
+    # (functools.lru_cache / cache key their entries by ==/hash: True, 1 and 1.0 collide unless typed=True)
+    n_fn = 0
+    for fi in prog.functions.values():
+        if fi.module.short() != "serdes" or isinstance(fi.node, ast.Lambda):
+            continue
+        n_fn += 1
+        for dec in fi.node.decorator_list:
+            d = dec.func if isinstance(dec, ast.Call) else dec
+            name = d.attr if isinstance(d, ast.Attribute) else getattr(d, "id", "")
+            if name in ("lru_cache", "cache", "cached_property", "memoize"):
+                typed = isinstance(dec, ast.Call) and any(k.arg == "typed" and isinstance(k.value, ast.Constant) and k.value.value is True for k in dec.keywords)
+                takes_value = len(fi.node.args.args) >= 1 and name != "cached_property"
+                ck.ob("R8.no-equality-keyed-memoisation", fn_construct(fi), typed or not takes_value,
+                      f"@{name} on a (de)serialisation function keys its cache by value equality: equal values of different types (True / 1 / 1.0, 0.0 / False) "
+                      "share one entry, so whichever was encoded first decides the type tag of the other")
+    ck.floor("serdes_functions_scanned", n_fn, 20)
+    # module-level dict caches keyed by the value would be the same defect: none may be written from encode paths
+    for cname, c in sd.classes.items():
+        enc = c.methods.get("encode")
+        if enc is None:
+            continue
+        for n_ in ast.walk(enc.node):
+            if isinstance(n_, ast.Subscript) and isinstance(n_.ctx, ast.Store) and isinstance(n_.value, (ast.Name, ast.Attribute)) \
+                    and "cache" in ast.unparse(n_.value).lower():
+                ck.ob("R8.no-equality-keyed-memoisation", fn_construct(enc), False, f"encode stores into {ast.unparse(n_.value)}: a value-keyed cache conflates equal values of different types")
 
     # R7 failures surface as ExecutionError -------------------------------------------------------------------
     for fname in ("serialize", "deserialize"):
